@@ -653,6 +653,11 @@ func TestC11(t *testing.T) {
 			}
 			n := ns[shard%len(ns)]
 			kC11.One(ev, c11Case{N: n, Mode: "txnset", Subset: []int{0, 1, n / 3, n - 2, n - 1}, Salt: seedEnv % 1000})
+			if shard == 1%nShards {
+				// ... and one past 2^17 (tree height 18, positions that need more than 16 bits below the top levels),
+				// with a lone transaction right behind the 2^17th
+				kC11.One(ev, c11Case{N: 131074, Mode: "txnset", Subset: []int{131072}, Salt: seedEnv % 1000})
+			}
 		}
 		kC11.Run(t, ev, perShard(pick(1500, 600000)))
 		for _, c := range c10SavedCases() {
